@@ -21,7 +21,7 @@ import (
 
 func isReflectType(t types.Type) bool {
 	n, ok := t.(*types.Named)
-	return ok && n.Obj().Pkg() != nil && n.Obj().Pkg().Path() == "reflect" && n.Obj().Name() == "Type"
+	return ok && n.Obj().Pkg() != nil && n.Obj().Pkg().Path() == "reflect" && core.TypeName(n) == "Type"
 }
 
 // reinterpretsAs returns a description of the map/interface type f
@@ -279,7 +279,7 @@ func emptyIfaceGate(p *core.Prog, r *core.Result) {
 			continue
 		}
 		rn := namedOf(f.Signature.Results().At(0).Type())
-		if rn == nil || (rn.Obj().Name() != "ptrUnfolder" && rn.Obj().Name() != "reflUnfolder") {
+		if rn == nil || (core.TypeName(rn) != "ptrUnfolder" && core.TypeName(rn) != "reflUnfolder") {
 			continue
 		}
 		k := &eiClient{p: p, fn: f, num: newNumbering()}
